@@ -762,27 +762,92 @@ def stream_search(repo, hint):
         fn = getattr(_import(repo, hint["file"]), q)
     except Exception:
         return None
-    payload = bytes(range(48, 48 + 40))
-    ref = None
-    for pos in (0, 1, 17, len(payload)):
-        b = io.BytesIO(payload)
-        b.seek(pos)
-        try:
-            r = fn(b)
-        except Exception as e:  # noqa
-            r = f"raised {type(e).__name__}"
-        if b.getvalue() != payload:
-            return {"reproduced": True, "target": f"{hint['file']}::{q}", "inputs": {"payload": payload.hex(), "cursor": pos},
-                    "expected": "stream content unchanged", "observed": "content modified"}
-        if pos == 0:
-            ref = r
-        elif r != ref:
-            return {"reproduced": True, "target": f"{hint['file']}::{q}", "inputs": {"payload": payload.hex(), "cursor": pos},
-                    "expected": f"same result as with the cursor at 0: {str(ref)[:60]!r}", "observed": f"{str(r)[:60]!r}"}
-        if hint.get("check_cursor") and b.tell() != pos:
-            return {"reproduced": True, "target": f"{hint['file']}::{q}", "inputs": {"payload": payload.hex(), "cursor": pos},
-                    "expected": f"cursor restored to {pos}", "observed": f"cursor at {b.tell()}"}
+    import inspect
+    import json
+
+    def canon(r):
+        """A comparable rendering of a result: generators are consumed, extraction results compared by their JSON, other objects
+        (an open archive, a parser) only by their type -- never by identity."""
+        if inspect.isgenerator(r):
+            r = [canon(x) for x in r]
+            return r
+        if isinstance(r, (str, bytes, int, float, bool, type(None))):
+            return repr(r)
+        if isinstance(r, (list, tuple)):
+            return [canon(x) for x in r]
+        if hasattr(r, "to_json"):
+            try:
+                return json.dumps(r.to_json(), sort_keys=True, default=str)
+            except Exception as e:  # noqa
+                return f"to_json raised {type(e).__name__}"
+        return f"<{type(r).__name__}>"
+
+    payloads = [bytes(range(48, 48 + 40))] + _fixture_payloads(repo, hint.get("file", ""))
+    for payload in payloads:
+        ref = None
+        for pos in (0, 1, 17, len(payload)):
+            b = io.BytesIO(payload)
+            b.seek(pos)
+            try:
+                r = canon(fn(b))
+            except Exception as e:  # noqa
+                r = f"raised {type(e).__name__}"
+            shown = payload.hex() if len(payload) <= 64 else f"{len(payload)} bytes, sha256 {hashlib.sha256(payload).hexdigest()}"
+            if b.closed:
+                return {"reproduced": True, "target": f"{hint['file']}::{q}", "inputs": {"payload": shown, "cursor": pos},
+                        "expected": "caller's stream left open", "observed": "stream closed"}
+            if b.getvalue() != payload:
+                return {"reproduced": True, "target": f"{hint['file']}::{q}", "inputs": {"payload": shown, "cursor": pos},
+                        "expected": "stream content unchanged", "observed": "content modified"}
+            if pos == 0:
+                ref = r
+            elif r != ref:
+                return {"reproduced": True, "target": f"{hint['file']}::{q}", "inputs": {"payload": shown, "cursor": pos},
+                        "expected": f"same result as with the cursor at 0: {str(ref)[:60]!r}", "observed": f"{str(r)[:60]!r}"}
+            if hint.get("check_cursor") and b.tell() != pos:
+                return {"reproduced": True, "target": f"{hint['file']}::{q}", "inputs": {"payload": shown, "cursor": pos},
+                        "expected": f"cursor restored to {pos}", "observed": f"cursor at {b.tell()}"}
+            if hint.get("check_left0") and b.tell() != 0:
+                return {"reproduced": True, "target": f"{hint['file']}::{q}", "inputs": {"payload": shown, "cursor": pos},
+                        "expected": "cursor left at 0", "observed": f"cursor at {b.tell()}"}
     return None
+
+
+FIXTURE_KINDS = {"xlsx": (".xlsx",), "xls": (".xls",), "rtf": (".rtf",), "plain": (".txt", ".md", ".csv"), "mbox": (".mbox",), "msg": (".msg",),
+                 "mhtml": (".mhtml", ".mht"), "html": (".html", ".htm"), "archive": (".zip", ".tar"), "zip": (".docx", ".zip"), "eml": (".eml",)}
+
+
+def _fixture_payloads(repo, rel, limit=2, max_bytes=3_000_000):
+    """Real documents of the kind the module named `rel` reads (by the first word of its file name), smallest first, plus a tiny
+    ZIP for the ZIP guard."""
+    base = os.path.basename(rel).split("_")[0].split(".")[0]
+    exts = FIXTURE_KINDS.get(base, ())
+    found = []
+    root = os.path.join(repo, "sharepoint2text", "tests", "resources")
+    for d, _dirs, files in os.walk(root):
+        for f in files:
+            if exts and f.lower().endswith(exts):
+                fp = os.path.join(d, f)
+                try:
+                    n = os.path.getsize(fp)
+                except OSError:
+                    continue
+                if n <= max_bytes:
+                    found.append((n, fp))
+    out = []
+    for _n, fp in sorted(found)[:limit]:
+        try:
+            with open(fp, "rb") as fh:
+                out.append(fh.read())
+        except OSError:
+            pass
+    if base in ("zip", "archive"):
+        import zipfile
+        z = io.BytesIO()
+        with zipfile.ZipFile(z, "w") as zf:
+            zf.writestr("a.txt", "hello")
+        out.append(z.getvalue())
+    return out
 
 
 STRING_POOL = ["a.txt", "A.TXT", "a.pdf", "b.txt", "x/a.txt", "a", "", "1", "1.0", "image.png", "IMAGE.PNG", "image.jpeg"]
@@ -1047,7 +1112,8 @@ def find(req):
         # obligation of a deductively verified function (contracts/C06.py::contracts): search at function level first
         rel, q = req["function"].split("::", 1)
         # (restoring the cursor is only required where the obligation says so)
-        hint = {"kind": "stream", "file": rel, "function": q, "check_cursor": "position-restored" in (req.get("obligation") or "")}
+        hint = {"kind": "stream", "file": rel, "function": q, "check_cursor": "position-restored" in (req.get("obligation") or ""),
+                "check_left0": "left-at-offset-0" in (req.get("obligation") or "")}
     kind = hint.get("kind")
     if kind == "stream":
         r = stream_search(repo, hint)
